@@ -925,3 +925,7 @@ package agent
 //@ census[C04] (*Connection).WriteFrame in -
 //@ census[C04] (*Connection).SendData in -
 //@ census[C04] (*Manager).Broadcast in -
+
+// C04: a session key is never wiped while tunnel code of this package may still seal data with it (a wiped key is
+// all-zero, i.e. known to every transit): no function of this package zeroes a session key.
+//@ census[C04] crypto.(*SessionKey).Zero in -
